@@ -338,7 +338,7 @@ def rule_d(ctx, cr):
     dep = False
     for b, i, st in sl.aggregates("lang::ast::Statement"):
         for c in sl.conds_at(b):
-            if c[0] == "eq" and "arg:is_shortcut" in str(c[1]):
+            if c[0] == "eq" and "arg:2" in str(c[1]):
                 dep = True
     ctx.check(not dep, "C16.d", "optional-LET/flag-only-in-errors", sl.span,
               "the AST built does not depend on whether LET was written")
